@@ -24,6 +24,7 @@ import RubatoProofs.Fft.Control
 import RubatoProofs.Async.FixedInHistory
 import RubatoProofs.Async.Diverge
 import RubatoProofs.Async.OddLength
+import RubatoProofs.Lemmas.StorageTie
 
 set_option linter.unusedSectionVars false
 set_option linter.unusedVariables false
@@ -226,5 +227,64 @@ theorem sincIn_user_interpolator_len1_false :
     OddLength.isPanic (OddLength.outcomeOf 1 OddLength.d18S0) = true ∧
     OddLength.okSummary (OddLength.outcomeOf 3 OddLength.d18C0) = some (8, 32, false) :=
   ⟨OddLength.d18_init, OddLength.d18_panics, OddLength.d18_control_ok.2.2.2⟩
+
+end Rubato.C03
+
+namespace Rubato.C03
+open Rubato Rubato.Gen
+
+/-- tie G13: the per-channel storage the model's constructors allocate is what the Rust constructors allocate (regenerated
+formulas; fixed-output asynchronous types: `FormulaTie.fastOut_buffer_len` / `sincOut_buffer_len`) -/
+theorem constructor_storage_is_the_source_text {ρ : Type} [RNum ρ] (chunk L fi fo : Nat) :
+    chunk + 2 * Fast.polyLen = Storage.fastIn_buffer_len (ρ := ρ) chunk ∧
+    chunk + 2 * L = Storage.sincIn_buffer_len (ρ := ρ) chunk L ∧
+    chunk + fi = Storage.fftIn_input_buffer_len (ρ := ρ) chunk fi ∧
+    chunk + fo = Storage.fftOut_output_buffer_len (ρ := ρ) chunk fo ∧
+    Storage.fftIo_overlap_len (ρ := ρ) fo = fo ∧ Storage.fftIn_overlap_len (ρ := ρ) fo = fo ∧
+    Storage.fftOut_overlap_len (ρ := ρ) fo = fo :=
+  ⟨rfl, rfl, rfl, rfl, rfl, rfl, rfl⟩
+
+/-- ... and it is enough: FftFixedIn can always append a whole request behind fewer than one block of carried-over frames;
+FftFixedOut can always append the blocks that complete a chunk behind the frames it carried over; the fixed-input
+asynchronous types load one chunk behind two filter lengths of history. -/
+theorem constructor_storage_suffices {ρ : Type} [RNum ρ] (chunk L fi fo saved : Nat) :
+    (saved < fi → saved + chunk ≤ Storage.fftIn_input_buffer_len (ρ := ρ) chunk fi) ∧
+    (0 < fo → saved ≤ chunk →
+      saved + ((chunk - saved + fo - 1) / fo) * fo ≤ Storage.fftOut_output_buffer_len (ρ := ρ) chunk fo) ∧
+    Refill.sincIn_load_to (ρ := ρ) L chunk ≤ Storage.sincIn_buffer_len (ρ := ρ) chunk L ∧
+    Refill.fastIn_load_to (ρ := ρ) chunk ≤ Storage.fastIn_buffer_len (ρ := ρ) chunk :=
+  ⟨StorageTie.fftIn_input_fits chunk fi saved, StorageTie.fftOut_output_fits chunk fo saved,
+   (StorageTie.asyncIn_load_fits chunk L).1, (StorageTie.asyncIn_load_fits chunk L).2⟩
+
+/-- the storage formulas read the constructor arguments one expects -/
+theorem storage_formulas_read_the_expected_locals_C03 :
+    Storage.storageParams =
+      [("fastIn_buffer_len", ["chunk_size"]),
+       ("sincIn_buffer_len", ["chunk_size", "sinc_len"]),
+       ("fftIo_overlap_len", ["fft_size_out"]),
+       ("fftOut_overlap_len", ["fft_size_out"]),
+       ("fftOut_output_buffer_len", ["chunk_size_out", "fft_size_out"]),
+       ("fftIn_overlap_len", ["fft_size_out"]),
+       ("fftIn_input_buffer_len", ["chunk_size_in", "fft_size_in"])] :=
+  StorageTie.storage_formulas_read_the_expected_locals
+
+end Rubato.C03
+
+namespace Rubato.C03
+open Rubato Rubato.Gen
+
+/-- tie G17: which constructor arguments are rejected is the source text: `validate_ratios` (both copies agree) is
+`ratio <= 0 -> InvalidRatio`, then `max_relative < 1 -> InvalidRelativeRatio`; `validate_sample_rates` is `input == 0 ||
+output == 0`; and every one of the seven constructors validates its own arguments in its first statement, before it computes
+or allocates anything (the sinc `new` hand the same arguments to `new_with_interpolator`).  Everything the theorems assume of
+an accepted configuration (`0 < ratio`, `1 ≤ max_relative`, positive rates) comes from here. -/
+theorem constructor_validation_is_the_source_text (r m : Rat) (ri ro : Nat) :
+    validateRatios r m =
+      (if Ctor.ctor_invalid_ratio r then .error .invalidRatio
+       else if Ctor.ctor_invalid_relative m then .error .invalidRelativeRatio else .ok ()) ∧
+    ((ri = 0 ∨ ro = 0) ↔ Ctor.ctor_invalid_rates (ρ := Rat) ri ro = true) ∧
+    (∀ e ∈ Ctor.ctorValidatesFirst, e.2 = 1) ∧ Ctor.ctorValidatesFirst.map (·.1) = [0, 1, 2, 3, 4, 5, 6] :=
+  ⟨CtorTie.validateRatios_is_generated r m, CtorTie.invalid_rates_is_generated ri ro,
+   CtorTie.constructors_validate_first, CtorTie.constructors_validate_first_all⟩
 
 end Rubato.C03
